@@ -163,9 +163,31 @@ pub struct Answer {
     pub text: String,
 }
 
+/// `{:?}` into a bounded buffer: a value with an in-memory reference cycle (possible once Lazy
+/// cells are loaded) would otherwise recurse without end inside the *harness*.
+pub fn debug_bounded<T: std::fmt::Debug>(v: &T) -> String {
+    struct Bounded(String);
+    impl std::fmt::Write for Bounded {
+        fn write_str(&mut self, s: &str) -> std::fmt::Result {
+            if self.0.len() + s.len() > (1 << 20) {
+                return Err(std::fmt::Error);
+            }
+            self.0.push_str(s);
+            Ok(())
+        }
+    }
+    let mut b = Bounded(String::new());
+    use std::fmt::Write;
+    if write!(b, "{:?}", v).is_err() {
+        eprintln!("HARNESS-ERROR: unbounded Debug rendering in the digest (a cyclic value reached debug_bounded)");
+        std::process::exit(2);
+    }
+    b.0
+}
+
 impl Answer {
     pub fn ok_debug<T: std::fmt::Debug>(v: &T) -> Answer {
-        let c = canon(&format!("{:?}", v));
+        let c = canon(&debug_bounded(v));
         Answer { ok: true, digest: hash_str(&c), text: c.chars().take(160).collect() }
     }
     pub fn ok_text(c: String) -> Answer {
